@@ -53,7 +53,13 @@ fn main() {
         i += 1;
     }
     mon::panic::install_hook();
-    let code = checks::dispatch(&id, tier, seed, sub.as_deref());
+    let code = match std::panic::catch_unwind(|| checks::dispatch(&id, tier, seed, sub.as_deref())) {
+        Ok(c) => c,
+        Err(_) => {
+            println!("INCONCLUSIVE property={id} harness error (panic outside the code under test)");
+            2
+        }
+    };
     std::process::exit(code);
 }
 
